@@ -258,10 +258,16 @@ fn program(case: &[i128]) -> Option<Prog> {
         9 => {
             let e = match v {
                 0 => "let _r: bool = x == y;",
-                1 => "let _r = x.partial_cmp(&y);",
-                _ => "let _r = x.cmp(&y);",
+                1 | 3 => "let _r = x.partial_cmp(&y);",
+                2 => "let _r = x.cmp(&y);",
+                4 => "let _r: bool = x < y;",
+                5 => "let _r: bool = x == y;",
+                _ => "let _r: bool = x.lt(&y);",
             };
-            lens_fn("(x, y)", &format!("({}, {})", a_n, ga("u8", k)), false, &format!("{} ()", e))
+            // variants 3..: elements that are PartialOrd but not Ord (a method call must not fall
+            // through to the slice impl, which would accept any two lengths)
+            let el = if v >= 3 { "f64" } else { "u8" };
+            lens_fn("(x, y)", &format!("({}, {})", ga(el, n), ga(el, k)), false, &format!("{} ()", e))
         }
         10 => match v {
             0 => lens_fn("x", &format!("[u8; {}]", k), false, &format!("(GenericArray::<u8, {}>::from_array(x),)", uint(n))),
@@ -475,7 +481,7 @@ fn cases(tier: &str, rng: &mut Rng) -> Vec<Vec<i128>> {
     let cm: i128 = if th { 4 } else { 1 };
     for n in 0..=cm {
         for k in 0..=cm {
-            for v in 0..3 {
+            for v in 0..7 {
                 push(9, v, n, k, -1, 0);
             }
         }
